@@ -415,6 +415,62 @@ var witnesses = []witness{
 		}
 		return wantEq("rows seen by a fresh reader", sqlh.QS(db2, "select count(*) from r"), i(8))
 	}},
+	{id: "F43", props: []string{"C09"}, what: "a vacuum from a connection that was not refreshed deleted nodes another writer's current version uses", run: func(w *wEnv) string {
+		w.mk("a", "k primary key, a", sqlh.TableOpts{EntriesPerNode: 2})
+		w.wt(1)
+		w.x("insert into a values(1,'one')")
+		w.wt(2)
+		w.x("insert into a values(2,'two')")
+		dbB := sqlh.Open()
+		defer dbB.Close()
+		if r := sqlh.XS(dbB, sqlh.CreateSQL(sqlh.TableOpts{Name: "b", Bucket: w.bucket, Prefix: "p", Columns: "k primary key, a", EntriesPerNode: 2})); r != "ok" {
+			return "second connection: " + r
+		}
+		sqlh.SetWriteTime(dbB, 3)
+		sqlh.Exec(dbB, "delete from b where k=2")
+		if r := sqlh.XS(dbB, "select * from s3db_vacuum('b','2021-01-01 00:00:00')"); r != "ok" {
+			return "vacuum by the second connection: " + r
+		}
+		if err := s3db.Vacuum(context.Background(), "a", time.Now().Add(time.Hour)); err != nil {
+			return "vacuum by the stale connection: " + err.Error()
+		}
+		if d := danglingIn(w.store, "p/s3db-rows/root/current/"); len(d) > 0 {
+			return fmt.Sprintf("a current version refers to deleted nodes: %v", d[:min(len(d), 2)])
+		}
+		dbC := sqlh.Open()
+		defer dbC.Close()
+		if r := sqlh.XS(dbC, sqlh.CreateSQL(sqlh.TableOpts{Name: "c", Bucket: w.bucket, Prefix: "p", Columns: "k primary key, a", EntriesPerNode: 2, ReadOnly: true})); r != "ok" {
+			return "fresh open: " + r
+		}
+		return wantEq("rows seen by a fresh reader", sqlh.QS(dbC, "select k from c"), i(1))
+	}},
+	{id: "F44", props: []string{"C09", "C05"}, what: "ROLLBACK after a vacuum inside a transaction that changed nothing returned to a tree whose nodes were deleted", run: func(w *wEnv) string {
+		w.mk("t", "k primary key, a", sqlh.TableOpts{EntriesPerNode: 2})
+		for k := 0; k < 8; k++ {
+			w.x("insert into t values(?,'x')", k)
+		}
+		w.x("delete from t where k=3")
+		w.x("begin")
+		w.x("delete from t where k=99")
+		if r := w.x("select * from s3db_vacuum('t','2100-01-01 00:00:00')"); r != "ok" {
+			return "vacuum: " + r
+		}
+		w.x("rollback")
+		return wantEq("rows after the rollback", w.q("select count(*) from t"), i(7))
+	}},
+	{id: "F45", props: []string{"C09", "C10"}, what: "a vacuum cutoff beyond the year 2262 left tombstones behind; the next INSERT of such a key crashed the process", run: func(w *wEnv) string {
+		w.mk("t", "k primary key, a", sqlh.TableOpts{EntriesPerNode: 4})
+		w.x("insert into t values(1,'x')")
+		w.x("insert into t values(2,'y')")
+		w.x("delete from t where k=2")
+		if r := w.x("select * from s3db_vacuum('t','2300-01-01 00:00:00')"); r != "ok" {
+			return "vacuum: " + r
+		}
+		if r := w.x("insert into t values(2,'again')"); r != "ok" {
+			return "insert after the vacuum: " + r
+		}
+		return wantEq("rows", w.q("select k from t order by k"), i(1)+" | "+i(2))
+	}},
 	{id: "F15", props: []string{"C03"}, what: "an open racing with a commit showed an empty table (kv level)", run: func(w *wEnv) string {
 		// covered exhaustively by the proto stream; here: a version that left root/current/ between LIST and GET
 		return ""
